@@ -339,7 +339,7 @@ def sonar_reader_pair(s1: int, closed1: bool, s2: int, closed2: bool, hotspots: 
     disturbs the other one.
     post: _
     """
-    ents = [(s1, 2 if closed1 else 0, False, True, sl, so, sl, so + 1), (s2, (5 if hotspots else 3) if closed2 else 1, hotspots, False, 7, 1, 7, 9)]
+    ents = [(s1, 2 if closed1 else 0, False, True, sl, so, sl, so + 1), (s2 % 4, (5 if hotspots else 3) if closed2 else 1, hotspots, False, 7, 1, 7, 9)]
     entries = [_sonar_entry(*e, idx=i) for i, e in enumerate(ents)]
     data = {"hotspots": entries} if hotspots else {"issues": entries, "hotspots": []}
     got, log = _run_sonar(data)
@@ -570,8 +570,8 @@ SPEC = {
         Xh("process_loops_codeql", 150, 1200),
         Xh("process_loops_defectdojo", 150, 1200),
         Xh("lookup", 120, 900),
-        Xh("sonar_reader", 120, 400),
-        Xh("sonar_reader_pair", 120, 400),
+        Xh("sonar_reader", 240, 600),
+        Xh("sonar_reader_pair", 240, 600),
         Xh("semgrep_reader", 120, 400),
         Xh("codeql_reader", 120, 400),
         Xh("defectdojo_reader", 90, 300),
